@@ -195,6 +195,11 @@ func (c *codecVolatile) DecodeTo(d *binary.Decoder, rv reflect.Value) (err error
 			return nil
 		}
 
+		// A value always starts with its add and delete times, skip anything shorter
+		if len(v) < 16 {
+			continue
+		}
+
 		out.data[binary.ToString(&k)] = decodeValue(binary.ToString(&v))
 	}
 
